@@ -34,6 +34,9 @@ VARIANTS = {
     "ES-v2": dict(family="ES", serial=b"95048ESU000W0000", firmware=b"2214E"),
     "DT-three": dict(family="DT", serial=b"9010KDTU000W0000", refuse=[]),
     "DT-single": dict(family="DT", serial=b"9010KDSN000W0000", refuse=[]),
+    # the same devices reached over Modbus/TCP (port 502): other command classes, other response validator
+    "ET-v2-tcp": dict(family="ET", serial=b"9010KETU000W0000", refuse=[], tcp=True),
+    "DT-single-tcp": dict(family="DT", serial=b"9010KDSN000W0000", refuse=[], tcp=True),
 }
 
 
@@ -528,7 +531,7 @@ def limit_job(job):
     if lo == 0 and not variant.startswith("DT"):
         for d in range(0, 101):
             _apply(acc, {"variant": variant, "what": "dod", "value": d}, run_limit_case)
-    if variant == "DT-single" and lo == 0:
+    if variant.startswith("DT-single") and lo == 0:
         for x in (65535, 65536, 100000, 2 ** 31, 2 ** 32 - 2):
             _apply(acc, {"variant": variant, "what": "export", "value": x}, run_limit_case)
     return acc
@@ -543,7 +546,7 @@ def hyp_job(job):
     @st.composite
     def cases(draw):
         variant = draw(st.sampled_from(eco_variants))
-        v2 = variant in ("ET-v2", "ET-v2-nopeak", "ET-745", "ES-v2")
+        v2 = variant in ("ET-v2", "ET-v2-nopeak", "ET-745", "ES-v2", "ET-v2-tcp")
         priors = sorted(PRIORS_V2 if v2 else PRIORS_V1)
         return {"variant": variant, "mode": draw(st.sampled_from((0, 1, 2, 3, 4, 5, 98, 99, 98, 99))), "power": draw(st.integers(1, 100)),
                 "soc": draw(st.integers(0, 100)), "prior": draw(st.sampled_from(priors)), "others": draw(st.sampled_from(priors)),
